@@ -629,6 +629,12 @@ class Array(metaclass=MetaArray):
     def _update(self, value):
         if is_integer(value):
             ll = value
+            if len(self._shape) > 1:
+                # the integer is the length along the dynamic axis: it must
+                # be the one fixed at creation (len(self) counts all items)
+                dyn = [nd is None for nd in self.__class__._shape]
+                same = sum(dyn) == 1 and value == self._shape[dyn.index(True)]
+                ll = len(self) if same else -1
         else:
             ll = len(value)
             shape = get_shape_from_array(value, len(self._shape))
@@ -668,7 +674,9 @@ class Array(metaclass=MetaArray):
                     raise
         else:
             if is_integer(value):
-                raise ValueError(f"Cannot specify new length {ll} for {self}")
+                raise ValueError(
+                    f"Cannot specify new length {value} for {self}"
+                )
             else:
                 raise ValueError(
                     f"len({value})={ll} is incompatible with len({self})={len(self)}"
